@@ -50,6 +50,25 @@ func mkDescriptor(v c19Val) scte35.SegmentationDescriptor {
 	return d
 }
 
+// mkDescriptorMoved builds the same descriptor by a longer route: it is first attached to another
+// signal (different PTS) and then moved into its final signal by replacing an element of the list
+// obtained from Descriptors() and handing that same list back to SetDescriptors. The relation must
+// see the final signal.
+func mkDescriptorMoved(v c19Val) scte35.SegmentationDescriptor {
+	other := v
+	other.HasPTS, other.PTS = true, v.PTS+12345
+	d := mkDescriptor(other) // attached to a signal with another PTS
+	final := mkDescriptor(v) // placeholder descriptor inside the final signal
+	sig := final.SCTE35()
+	list := sig.Descriptors()
+	if len(list) != 1 {
+		return final
+	}
+	list[0] = d
+	sig.SetDescriptors(list)
+	return d
+}
+
 type c19Grid struct {
 	vals  []c19Val
 	a, b  []scte35.SegmentationDescriptor // two independent object copies of the same values
@@ -67,7 +86,7 @@ func c19Build(vals []c19Val) *c19Grid {
 	g := &c19Grid{vals: vals}
 	for i, v := range vals {
 		g.a = append(g.a, mkDescriptor(v))
-		g.b = append(g.b, mkDescriptor(v))
+		g.b = append(g.b, mkDescriptorMoved(v))
 		g.byTyp[v.Type] = append(g.byTyp[v.Type], i)
 	}
 	return g
@@ -281,6 +300,58 @@ func c19CheckNums(c c19NumCase) engine.Result {
 	return res
 }
 
+type c19EqSweep struct {
+	Field string `json:"field"`
+	Ref   int    `json:"reference"`
+}
+
+// c19CheckEqSweep: Equal must tell apart (and only tell apart) descriptors that differ in one of
+// its fields, for EVERY value of the numeric fields, not only small ones.
+func c19CheckEqSweep(c c19EqSweep) engine.Result {
+	var res engine.Result
+	refs := [][2]uint8{{0, 16}, {1, 0}, {1, 1}, {0, 17}, {255, 255}, {3, 9}, {16, 0}, {0, 0}}
+	base := c19Val{Type: 0x36, Event: 5, HasPTS: true, PTS: 1000, Num: refs[c.Ref][0], Exp: refs[c.Ref][1], Sub: true, SubNum: refs[c.Ref][0], SubExp: refs[c.Ref][1]}
+	a := mkDescriptor(base)
+	engine.Guard(&res, "Equal", func() {
+		for x := 0; x < 256; x++ {
+			for y := 0; y < 256; y++ {
+				v := base
+				switch c.Field {
+				case "segment":
+					v.Num, v.Exp = uint8(x), uint8(y)
+				case "sub-segment":
+					v.SubNum, v.SubExp = uint8(x), uint8(y)
+				case "event-and-pts":
+					// x, y select one differing bit of the 32-bit event id / 33-bit PTS (or none)
+					if x >= 33 || y >= 34 {
+						continue
+					}
+					if x < 32 {
+						v.Event ^= 1 << uint(x)
+					}
+					if y < 33 {
+						v.PTS ^= 1 << uint(y)
+					}
+				}
+				b := mkDescriptor(v)
+				res.Evals++
+				want := c19RefEqual(base, v)
+				if got := a.Equal(b); got != want {
+					res.Failf("Equal|field-sweep|"+c.Field, "a=%+v b=%+v: Equal=%v want %v", base, v, got, want)
+					return
+				}
+				if got := b.Equal(a); got != want {
+					res.Failf("Equal|field-sweep|"+c.Field, "b=%+v a=%+v: Equal=%v want %v", v, base, got, want)
+					return
+				}
+			}
+		}
+	})
+	res.Nontrivial = 65536
+	res.Outcome(c.Field, c.Ref)
+	return res
+}
+
 func init() {
 	engine.Register(&engine.Property{
 		ID: "C19", Title: "Segmentation closing relation follows the rule table; equality is an equivalence", Level: "model_checking",
@@ -306,6 +377,18 @@ func init() {
 					}
 				},
 				Check: c19CheckNums, Batch: 4,
+			},
+			&engine.Enum[c19EqSweep]{
+				Name: "equality-field-sweep",
+				Rule: "for 8 reference (num, expected) pairs incl. (0,16),(1,0),(0,17),(255,255): a reference descriptor against ALL 65536 (segment_num, segments_expected) values, ALL 65536 (sub_segment_num, sub_segments_expected) values, and every single-bit difference of the 32-bit event id x every single-bit difference of the 33-bit PTS; Equal in both argument orders must be true exactly when all fields agree",
+				Gen: func(r *engine.Run, emit func(c19EqSweep)) {
+					for _, f := range []string{"segment", "sub-segment", "event-and-pts"} {
+						for i := 0; i < 8; i++ {
+							emit(c19EqSweep{f, i})
+						}
+					}
+				},
+				Check: c19CheckEqSweep, Batch: 1,
 			},
 			&engine.Enum[c19EqCase]{
 				Name: "equality",
